@@ -244,3 +244,164 @@ Theorem C04_greedy_pass_specs : forall s,
    ref_greedy_count_var = "i" /\ ref_greedy_fill_var = "i" /\ ref_greedy_enabled s = (sv s "maxmatch" >? 0)%Z).
 Proof. exact greedy_pass_specs. Qed.
 Print Assumptions C04_greedy_pass_specs.
+
+(* ================================================================== round 5: `coverage` with the seam, the dropped
+   points and the rotation; what decides the grid regenerated from the source *)
+From Coq Require Import Reals Qround Qabs.
+From PV Require Import C04.Sphere C04.SceneModel C04.Coverage C04.GridProofs.
+Close Scope string_scope. Close Scope R_scope. Close Scope Q_scope. Close Scope Z_scope. Open Scope nat_scope.
+
+(* ---- (4) spherical geometry, strict and on the circle (axioms: the classical reals, see Print Assumptions) ---- *)
+(* separation < L  ==>  |ddec| < L *)
+Theorem C04_dec_margin_strict : forall dp ap dq aq L : R,
+  (- (PI / 2) <= dp <= PI / 2)%R -> (- (PI / 2) <= dq <= PI / 2)%R -> (0 <= L <= PI)%R ->
+  (cos L < dotp dp ap dq aq)%R ->
+  (Rabs (dp - dq) < L)%R.
+Proof. exact dec_margin_strict. Qed.
+Print Assumptions C04_dec_margin_strict.
+
+(* separation < L  ==>  circular RA distance < asin (sin L / cos dec_q), for ANY two right ascensions in [0, 2 PI):
+   the reduction of the RA difference modulo 360 degrees is part of the theorem, not a premise *)
+Theorem C04_ra_margin_circ : forall dp ap dq aq L : R,
+  (- (PI / 2) <= dp <= PI / 2)%R -> (- (PI / 2) < dq < PI / 2)%R -> (0 <= L <= PI / 2)%R ->
+  (sin L < cos dq)%R ->
+  (cos L < dotp dp ap dq aq)%R ->
+  (0 <= ap < 2 * PI)%R -> (0 <= aq < 2 * PI)%R ->
+  (circ ap aq < asin (sin L / cos dq))%R.
+Proof. exact ra_margin_circ. Qed.
+Print Assumptions C04_ra_margin_circ.
+
+(* the margin fits in one RA cell of every slice the point visits when chunksize >= 4 matchlength:
+   c = cosDecMin of the slice (cosine of its larger |edge|, which is at least |dec_q| - L because the slice was visited),
+   w / c = the RA cell width chunks.__init__ aims at *)
+Theorem C04_ra_margin_le_cell : forall L dq c w : R,
+  (0 <= L <= PI / 2)%R -> (- (PI / 2) < dq < PI / 2)%R -> (sin L < cos dq)%R ->
+  (0 < c <= 1)%R -> ((L <= Rabs dq)%R -> (c <= cos (Rabs dq - L))%R) ->
+  (4 * L <= w)%R ->
+  (asin (sin L / cos dq) <= w / c)%R.
+Proof. exact ra_margin_le_cell. Qed.
+Print Assumptions C04_ra_margin_le_cell.
+
+Example C04_sphere_premises_satisfiable :
+  let dp := 0%R in let ap := (1 / 10)%R in let dq := (1 / 20)%R in let aq := 6%R in let L := (1 / 2)%R in
+  ((- (PI / 2) <= dp <= PI / 2) /\ (- (PI / 2) < dq < PI / 2) /\ (0 <= L <= PI / 2) /\ sin L < cos dq /\
+   cos L < dotp dp ap dq aq /\ (0 <= ap < 2 * PI) /\ (0 <= aq < 2 * PI) /\ PI < Rabs (ap - aq))%R.
+Proof. exact sphere_premises_example. Qed.
+Example C04_cell_premises_satisfiable :
+  let L := (1 / 10)%R in let dq := 1%R in let c := (1 / 2)%R in let w := 1%R in
+  ((0 <= L <= PI / 2) /\ (- (PI / 2) < dq < PI / 2) /\ sin L < cos dq /\ (0 < c <= 1) /\
+   (L <= Rabs dq -> c <= cos (Rabs dq - L)) /\ 4 * L <= w)%R.
+Proof. exact cell_premises_example. Qed.
+
+(* ---- (5) the discrete half with the seam (exact rationals, bounds as data) ---- *)
+(* one pair, anywhere relative to RA 0/360: if the list-1 point lies in cell (s, r), within the declination margin and
+   within the RA margin ON THE CIRCLE of a list-2 point for which getbounds succeeds, and the slice passes slice_ok
+   (margin = whole circle, or slice spans 0..360 with end cells at least one margin wide, or slice clear of 0/360 by a
+   margin), then (s, r) is among the cells the list-2 point is entered in -- through the wrap cell if need be *)
+Theorem C04_coverage_exact : forall (decB : list Q) (raB : list (list Q)) (ra dec m mg : Q) (b : bnd)
+                                    (s r : nat) (dec1 ra1 : Q),
+  let nDec := List.length decB - 1 in
+  let B := nth s raB [] in
+  let n := List.length B - 1 in
+  mono decB nDec -> mono B n -> (qbnd B 0 < qbnd B n)%Q ->
+  getbounds_model decB raB ra dec m mg = Some b ->
+  s < nDec -> (qbnd decB s <= dec1 <= qbnd decB (S s))%Q -> (dec - dec1 < m)%Q -> (dec1 - dec < m)%Q ->
+  r < n -> (qbnd B r <= ra1 <= qbnd B (S r))%Q ->
+  (0 <= ra < 360)%Q -> (0 <= ra1 < 360)%Q ->
+  circ_ltb ra1 ra mg = true ->
+  slice_ok B mg = true ->
+  In (Z.of_nat s, Z.of_nat r) (fill_cells (nRa_of_bounds raB) b).
+Proof. exact coverage_exact. Qed.
+Print Assumptions C04_coverage_exact.
+
+(* `coverage` itself, for the grid, the rotated coordinates and the margins of one call (a `scene`):
+   scene_ok is DECIDED (evaluated in Coq on the recorded grid of every run); it contains only grid-level conditions
+   (monotone bounds; every list-1 point inside the bounds of the cell get() computes; per list-2 point and visited
+   slice slice_ok; a list-2 point getbounds drops has no list-1 point within its margins).
+   margins_sound is what is left of the geometry: separation < L puts the pair within the two margins
+   (C04_dec_margin_strict / C04_ra_margin_circ over the reals; the floating-point evaluation is not modelled). *)
+Theorem C04_coverage_from_margins : forall (sc : scene) (sep : nat -> nat -> Q) (L : Q),
+  scene_ok sc = true ->
+  margins_sound sc sep L ->
+  coverage (nRa_of_bounds (s_raB sc)) (scene_bounds sc) (List.length (s_p1 sc)) (scene_cell_of sc) sep L.
+Proof. exact coverage_from_margins. Qed.
+Print Assumptions C04_coverage_from_margins.
+
+(* margins_sound has a per-case decision on a separation table (also evaluated on every run) *)
+Theorem C04_margins_check_sound : forall sc sep L, margins_check sc sep L = true -> margins_sound sc sep L.
+Proof. exact margins_check_sound. Qed.
+Print Assumptions C04_margins_check_sound.
+
+(* the property with `coverage` replaced by the decided grid conditions + the margins *)
+Theorem C04_spherematch_spec_scene : forall maxmatch (sc : scene) sep L s,
+  let nRa := nRa_of_bounds (s_raB sc) in
+  let bs := scene_bounds sc in
+  let n1 := List.length (s_p1 sc) in
+  scene_ok sc = true ->
+  margins_sound sc sep L ->
+  is_sorting_perm s (candidates n1 (scene_cell_of sc) (clist (assign_model nRa bs)) sep L) = true ->
+  match_ok n1 (List.length (s_p2 sc)) sep L maxmatch (spherematch_model maxmatch nRa bs n1 (scene_cell_of sc) sep L s) = true.
+Proof. exact spherematch_spec_scene. Qed.
+Print Assumptions C04_spherematch_spec_scene.
+
+Example C04_seam_scene_covered :
+  scene_ok seam_scene = true /\ margins_check seam_scene seam_sep 2%Q = true /\
+  scene_bounds seam_scene = [Some (1%Z, [(3%Z, 4%Z)])] /\ scene_cell_of seam_scene 0 = (1%Z, 0%Z) /\
+  spherematch_model 0 (nRa_of_bounds (s_raB seam_scene)) (scene_bounds seam_scene) 2 (scene_cell_of seam_scene)
+                    seam_sep 2%Q [0] = [(0, 0, (3 # 2)%Q)].
+Proof. exact seam_scene_example. Qed.
+
+(* ---- (6) the rotation: both lists are rotated by the same raOffset with fmod(. + raOffset, 360); the rotated RA stays
+   in [0, 360) and being neighbours on the circle is preserved, so margins_sound may be read on the unrotated RA ---- *)
+Theorem C04_rotation_preserves_neighbours : forall a b o mg : Q,
+  (0 <= a < 360)%Q -> (0 <= b < 360)%Q -> (0 <= o < 360)%Q -> (mg <= 360)%Q ->
+  (0 <= ref_currRa a o < 360)%Q /\ (forall x, (-(360) <= x < 0)%Q -> (ref_wrapra x == x + 360)%Q) /\
+  (circ_ltb (ref_currRa a o) (ref_currRa b o) mg = true <-> circ_ltb a b mg = true).
+Proof.
+  exact (fun a b o mg Ha Hb Ho Hm =>
+    conj (currRa_range a o (conj (Qle_trans _ _ _ (Qle_minus_360_0) (proj1 Ha)) (proj2 Ha)) Ho)
+         (conj wrapra_neg (iff_trans (circ_ltb_iff _ _ _) (iff_trans (circ_lt_rotate a b o mg Ha Hb Ho Hm) (iff_sym (circ_ltb_iff _ _ _)))))).
+Qed.
+Print Assumptions C04_rotation_preserves_neighbours.
+
+(* ---- (7) what decides the grid, as extracted from the source on this run, is the reference transliteration of
+   C04/SceneModel.v: rarange (NRA, start values, trial offsets, acceptance test with EPS), getraminmax / assign /
+   spherematch (the fmod rotation), chunks.__init__ (nDec, padding, clamps at +-90, pinned bounds, per-slice nRa, padding,
+   the four-way "embrace 0/360" test, the polar nRa = 1), the head of spherematch (chunk size default and floor), the
+   pair filter `sep < matchlength` with units=2 and /3600, the guard of assign, the raMargin switch of getbounds ---- *)
+Theorem C04_generated_grid_is_reference :
+  (gen_rarange_nra = ref_rarange_nra /\ gen_rarange_init = ref_rarange_init /\ gen_rarange_offset = ref_rarange_offset /\
+   gen_rarange_range = ref_rarange_range /\ gen_rarange_accept = ref_accept) /\
+  (gen_wrapra = ref_wrapra /\ gen_currRa_init = ref_currRa /\ gen_currRa_assign = ref_currRa /\ gen_currRa_match = ref_currRa) /\
+  (gen_init_decRange0 = ref_init_decRange0 /\ gen_init_nDec = ref_init_nDec /\ gen_init_decRange = ref_init_decRange /\
+   gen_init_decMin = ref_init_decMin /\ gen_init_decMax = ref_init_decMax /\
+   gen_init_clamp_decMin_test = ref_clamp_decMin_test /\ gen_init_clamp_decMin_val = (- (90))%Q /\
+   gen_init_clamp_decMax_test = ref_clamp_decMax_test /\ gen_init_clamp_decMax_val = 90%Q /\
+   gen_init_decBound = ref_init_decBound) /\
+  (gen_init_rarange_arg = ref_init_rarange_arg /\ gen_init_raRange = ref_init_raRange /\
+   gen_init_cos_of_lo = ref_init_cos_of_lo /\ gen_init_cos_bad = ref_init_cos_bad /\ gen_init_nRa = ref_init_nRa /\
+   gen_init_raRangeTmp = ref_init_raRangeTmp /\ gen_init_raMinTmp = ref_init_raMinTmp /\
+   gen_init_raMaxTmp = ref_init_raMaxTmp /\ gen_init_embrace = ref_embrace /\
+   gen_init_embrace_lo = 0%Q /\ gen_init_embrace_hi = 360%Q /\ gen_init_polar = ref_polar /\ gen_init_polar_nRa = 1%Q /\
+   gen_init_raBound = ref_init_raBound) /\
+  (gen_chunksize_default = ref_chunksize_default /\ gen_chunksize_small = ref_chunksize_small /\
+   gen_chunksize_floor = ref_chunksize_floor /\ gen_pair_units = 2%Z /\ gen_pair_scale = 3600%Q /\
+   gen_pair_test = ref_pair_test /\ gen_assign_guard = ref_assign_guard /\ gen_ramargin_full = 360%Q /\
+   (forall m s c, gen_ramargin_cap_clear m s c = true -> (s < c)%Q)).
+Proof. exact generated_grid_is_reference. Qed.
+Print Assumptions C04_generated_grid_is_reference.
+
+(* the chunk size spherematch() passes on is at least 4 matchlength (the side condition of C04_ra_margin_le_cell is
+   established by the code itself), so the guard of assign() never raises for a positive match length; and the pair
+   filter extracted from the source is the strict `<` the candidates of the model use *)
+Theorem C04_chunksize_admissible : forall (cs : option Q) (L : Q),
+  (4 * L <= eff_chunksize cs L)%Q /\
+  ((0 < L)%Q -> ref_assign_guard L (eff_chunksize cs L) = false) /\
+  (forall sep, ref_pair_test sep L = Qlt_bool sep L).
+Proof. exact (fun cs L => conj (eff_chunksize_ge cs L) (conj (assign_guard_clear cs L) (fun sep => eq_refl))). Qed.
+Print Assumptions C04_chunksize_admissible.
+
+Example C04_chunksize_examples :
+  eff_chunksize None (1 # 100) = dbl_0_1 /\ eff_chunksize (Some 5%Q) 2%Q = (4 * 2)%Q /\ eff_chunksize (Some 9%Q) 2%Q = 9%Q /\
+  (let r := rarange_model [350; 355; 5; 10]%Q 2%Q in Qeq_bool (fst r) 20 && Qeq_bool (snd r) 60) = true.
+Proof. exact chunksize_examples. Qed.
